@@ -434,6 +434,23 @@ def extra_carriers(ctx, rec):
                 steps.append(({"kind": "recall", "i": 0, "k": 0}, json.loads(json.dumps(c)),
                               {"conc": v, "variant": True, "variant_label": label}))
             rec.session(steps, base_conc)
+    # integer arrays between thresholds / spans that are not whole numbers: data in whole units (multiples of four
+    # quarter units), parameters anywhere on the quarter grid
+    for fn in ALL_FNS:
+        if fn in ("loc", "speed"):
+            continue
+        for rep in range(ctx.pick(5, 40)):
+            c = g.base(fn)
+            if fn == "valid" and c["p"]["kind"] == "time":
+                continue
+            c["x"] = [v if v == gen_qc.NA else 4 * v for v in c["x"]]
+            if fn == "press" and any(v == gen_qc.NA for v in c["x"]):
+                continue
+            steps = [({"kind": "base", "i": 0, "k": 0}, c)]
+            for v in ({"xc": "i64"}, {"xc": "i32"}, {"xc": "ma_i64"}):
+                steps.append(({"kind": "recall", "i": 0, "k": 0}, json.loads(json.dumps(c)),
+                              {"conc": v, "variant": True, "variant_label": "intdata,xc=" + v["xc"]}))
+            rec.session(steps, dict(CONCS[1]))
     # sub-second time axes: outside the domain of the rate / window rules (whole-second steps), but the carriers
     # of one and the same axis must still agree with each other
     for fn in ("roc", "flat", "att", "speed"):
